@@ -91,6 +91,83 @@ def name(xi, yi, k, rej):
     return f"load {TEXTS[xi][0]}; {k} steps; " + ("load <rejected>; " if rej else "") + f"load {TEXTS[yi][0]}; run"
 
 
+SIZE_TEXTS = [t for _n, t in TEXTS] + [".data\nv: .word 7\n.text\nLDA v\nSTO 0xFFF\nLDA 0xFFF\nINC\n", "ZRO\nBRZ 0xFFF\n", "LDA 4095\nADD 0xFFE\nSTO 4094\n"]
+
+
+def explicit_size_case(ti):
+    """A machine created with the DEFAULT size given explicitly (ToySimulation(unified_memory_size=4096)) is the default machine."""
+    res = []
+    for sim in (ToySimulation(), ToySimulation(unified_memory_size=4096)):
+        out = load(sim, SIZE_TEXTS[ti])
+        a = observe(sim)
+        try:
+            run(sim)
+            b = observe(sim)
+        except Exception as e:  # noqa
+            b = f"running raised {type(e).__name__}: {e}"
+        res.append((out, a, b))
+    if res[0] != res[1]:
+        k = next(i for i in range(3) if res[0][i] != res[1][i])
+        return ("execution-after-reload" if k == 2 else "placement-after-reload",
+                f"{('load outcome', 'state after loading', 'state after running')[k]} on ToySimulation(unified_memory_size=4096): {str(res[1][k])[:200]}; on ToySimulation(): {str(res[0][k])[:200]}")
+    return None
+
+
+def explicit_size_shard(shard):
+    fields = shard
+    p = Partial()
+    for ti in range(len(SIZE_TEXTS)):
+        p.evaluations += 1
+        p.nontrivial += 1
+        p.counters["default-size-given-explicitly"] += 1
+        d = explicit_size_case(ti)
+        if d and d[0] in fields:
+            p.violation(dict(oracle="toy-explicit-size", field=d[0]), dict(kind="toy-size", ti=ti), f"{SIZE_TEXTS[ti]!r}: {d[1]}", size=(ti,))
+    return p
+
+
+ASM_TEXTS = SIZE_TEXTS + ["LDA 4099\nINC\nSTO 8192\nLDA 0\n", "ADD 0x1003\nSUB 65537\nOR 4096\n", ".data\nv: .word 3\n.text\nXOR 4095\nAND 8191\nSTO 4097\n"]
+
+
+def assembled_case(ti):
+    """A program that comes from the ASSEMBLER executes as its memory words say (the first instruction included, which is
+    not fetched but handed over by the assembler): whole steps against the reference machine built from the assembled words."""
+    from vf.ref.toy import ToyRef
+    sim = ToySimulation()
+    if load(sim, ASM_TEXTS[ti]) != "accepted":
+        return None
+    st = sim.state
+    n = (st.max_pc + 1) if st.max_pc is not None else 0
+    words = [int(st.memory.read_halfword(a)) for a in range(n)]
+    data = {a: v for a, v in toy._cells(sim) if a >= n and int(v)}
+    ref = ToyRef(words, {a: int(v) for a, v in data.items()}, 0)
+    k = 0
+    while k < HORIZON and not ref.done():
+        try:
+            sim.step()
+        except Exception as e:  # noqa
+            return f"step {k + 1} raised {type(e).__name__}: {e} (instruction word {words[ref.cur] if ref.cur < len(words) else '?':#06x})"
+        ref.step()
+        k += 1
+        if toy.snapshot(sim) != ref.snapshot():
+            return f"after step {k}: (accu, pc, ir, count, cycles, branches, memory) = {str(toy.snapshot(sim))[:160]}, reference machine on the assembled words {str(ref.snapshot())[:160]}"
+    if not sim.is_done() and ref.done():
+        return f"the reference machine stops after {k} steps, the simulation is not done"
+    return None
+
+
+def assembled_shard(shard):
+    p = Partial()
+    for ti in range(len(ASM_TEXTS)):
+        p.evaluations += 1
+        p.nontrivial += 1
+        p.counters["assembled-program-executed"] += 1
+        d = assembled_case(ti)
+        if d:
+            p.violation(dict(oracle="toy-assembled-program", field="execution"), dict(kind="toy-asm", ti=ti), f"{ASM_TEXTS[ti]!r}: {d}", size=(ti,))
+    return p
+
+
 def shard_fn(shard):
     xi, fields, prop = shard
     p = Partial()
@@ -114,6 +191,12 @@ def shard_fn(shard):
 
 
 def replay(case, fields):
+    if case.get("kind") == "toy-asm":
+        d = assembled_case(case["ti"])
+        return [(dict(oracle="toy-assembled-program", field="execution"), d)] if d else []
+    if case.get("kind") == "toy-size":
+        d = explicit_size_case(case["ti"])
+        return [(dict(oracle="toy-explicit-size", field=d[0]), d[1])] if d and d[0] in fields else []
     bad, _n = history(case["xi"], case["yi"], case["k"], case["rej"])
     return [(dict(oracle="toy-reload", field=f), f"[{name(case['xi'], case['yi'], case['k'], case['rej'])}]: {d}") for f, d in bad if f in fields or f == "reload-outcome"]
 
@@ -127,3 +210,12 @@ def run_part(ctx, fields):
     ctx.space("reload-into-a-used-simulation", part, t0, texts=len(TEXTS), steps_before_the_reload=list(KS),
               note="load X; k steps; [rejected load;] load Y; run — vs a fresh simulation that only loaded Y")
     ctx.require("reload-into-a-used-simulation", "same-text-loaded-again-after-running")
+    t0 = time.time()
+    part = pmap(explicit_size_shard, [tuple(fields)])
+    ctx.space("default-size-given-explicitly", part, t0, texts=len(SIZE_TEXTS))
+    ctx.require("default-size-given-explicitly")
+    if "execution-after-reload" in fields:
+        t0 = time.time()
+        part = pmap(assembled_shard, [0])
+        ctx.space("assembled-programs-executed", part, t0, texts=len(ASM_TEXTS), note="incl. operands of 4096 and more, which the assembler reduces modulo 4096")
+        ctx.require("assembled-program-executed")
